@@ -457,3 +457,338 @@ Proof.
   - destruct (enum_value enum_TextEmphasisStyle style), (enum_value enum_TextEmphasisPosition pos); discriminate.
   - destruct (enum_value enum_RubyReservePosition pos); discriminate.
 Qed.
+
+(* ---- tts:textDecoration: the 27 values (finite domain, decided) ---------------------------------------------------------------- *)
+Definition ob3 : list (option bool) := [None; Some true; Some false].
+Definition obool_eqb' (a b : option bool) : bool := match a, b with None, None => true | Some x, Some y => Bool.eqb x y | _, _ => false end.
+Definition text_dec_ok (u l o : option bool) : bool :=
+  match print_style P_TextDecoration (STextDec u l o) with
+  | WAttr s => match read_style P_TextDecoration s with Some (STextDec u' l' o') => obool_eqb' u u' && obool_eqb' l l' && obool_eqb' o o' | _ => false end
+  | _ => false
+  end.
+Lemma text_dec_all : forallb (fun u => forallb (fun l => forallb (fun o => text_dec_ok u l o) ob3) ob3) ob3 = true.
+Proof. vm_compute. reflexivity. Qed.
+
+Theorem text_decoration_roundtrip u l o :
+  exists s, print_style P_TextDecoration (STextDec u l o) = WAttr s /\ read_style P_TextDecoration s = Some (STextDec u l o).
+Proof.
+  assert (H : text_dec_ok u l o = true).
+  { destruct u as [[|]|], l as [[|]|], o as [[|]|]; vm_compute; reflexivity. }
+  unfold text_dec_ok in H.
+  destruct (print_style P_TextDecoration (STextDec u l o)) as [s| |]; try discriminate.
+  exists s. split; [reflexivity|].
+  destruct (read_style P_TextDecoration s) as [v|]; [|discriminate]. destruct v; try discriminate.
+  apply andb_true_iff in H as [H H3]. apply andb_true_iff in H as [H1 H2].
+  assert (E : forall a b, obool_eqb' a b = true -> a = b).
+  { intros [[|]|] [[|]|]; simpl; congruence. }
+  rewrite (E _ _ H1), (E _ _ H2), (E _ _ H3). reflexivity.
+Qed.
+
+(* ---- tts:rubyReserve and tts:textOutline: a keyword / a colour, and a length ------------------------------------------------- *)
+Lemma split_two a b : forallb plain a = true -> forallb plain b = true -> split_on 32 (a ++ sp ++ b) [] = [a; b].
+Proof. intros Ha Hb. unfold sp. cbn [app]. rewrite (split_plain_app _ _ Ha []), (split_plain _ Hb []). reflexivity. Qed.
+
+Definition reserve_pos_ok (pos : Z) : bool :=
+  match enum_value enum_RubyReservePosition pos with
+  | Some ps => forallb plain ps && negb (text_eqb ps T_none) &&
+               match enum_by_name enum_RubyReservePosition ps with Some o => o =? pos | None => false end
+  | None => false
+  end.
+Lemma reserve_positions_ok : forallb reserve_pos_ok [0; 1; 2; 3] = true.
+Proof. vm_compute. reflexivity. Qed.
+
+Theorem ruby_reserve_roundtrip pos l : 0 <= pos <= 3 -> valid_len l ->
+  read_style P_RubyReserve T_none = Some SNone /\ print_style P_RubyReserve SNone = WAttr T_none /\
+  (exists s, print_style P_RubyReserve (SReserve pos None) = WAttr s /\ read_style P_RubyReserve s = Some (SReserve pos None)) /\
+  (exists s, print_style P_RubyReserve (SReserve pos (Some l)) = WAttr s /\
+             exists l', read_style P_RubyReserve s = Some (SReserve pos (Some l')) /\ len_equiv l l').
+Proof.
+  intros Hp Hv. split; [reflexivity|]. split; [reflexivity|].
+  assert (Hok : reserve_pos_ok pos = true).
+  { pose proof reserve_positions_ok as A. rewrite forallb_forall in A. apply A.
+    assert (pos = 0 \/ pos = 1 \/ pos = 2 \/ pos = 3) by lia. simpl. intuition. }
+  unfold reserve_pos_ok in Hok. destruct (enum_value enum_RubyReservePosition pos) as [ps|] eqn:Ev; [|discriminate].
+  apply andb_true_iff in Hok as [Hok Hn]. apply andb_true_iff in Hok as [Hpl Hnn]. apply negb_true_iff in Hnn.
+  destruct (enum_by_name enum_RubyReservePosition ps) as [o|] eqn:En; [|discriminate]. apply Z.eqb_eq in Hn. subst o.
+  split.
+  - exists ps. split; [cbn [print_style]; rewrite Ev; rewrite app_nil_r; reflexivity|].
+    unfold read_style, extract_style. unfold_props. rewrite Hnn, (split_plain _ Hpl []). cbn [app]. rewrite En. reflexivity.
+  - destruct (len_rt l Hv) as [l' [L1 L2]]. destruct (print_len_shape l Hv) as [Pl _].
+    exists (ps ++ sp ++ print_len l). split; [cbn [print_style]; rewrite Ev; reflexivity|].
+    exists l'. split; [|exact L2].
+    unfold read_style, extract_style. unfold_props.
+    assert (Hnot : text_eqb (ps ++ sp ++ print_len l) T_none = false).
+    { destruct (text_eqb (ps ++ sp ++ print_len l) T_none) eqn:E; [|reflexivity]. apply text_eqb_eq in E.
+      assert (Hf : forallb plain (ps ++ sp ++ print_len l) = true) by (rewrite E; reflexivity).
+      rewrite !forallb_app in Hf. apply andb_true_iff in Hf as [_ Hf]. apply andb_true_iff in Hf as [Hf _]. discriminate. }
+    rewrite Hnot, (split_two _ _ Hpl Pl), En, L1. reflexivity.
+Qed.
+
+Lemma print_color_plain r g b a : byte r -> byte g -> byte b -> byte a -> forallb plain (print_color (r, g, b, a)) = true.
+Proof.
+  intros Hr Hg Hb Ha. unfold print_color, hex2.
+  assert (Hh : forall d, 0 <= d < 16 -> plain (hexd d) = true).
+  { intros d Hd. unfold hexd, plain. destruct (d <? 10); lia. }
+  assert (H16 : forall c, byte c -> 0 <= c / 16 < 16 /\ 0 <= c mod 16 < 16) by (unfold byte; intros; lia).
+  destruct (H16 r Hr), (H16 g Hg), (H16 b Hb), (H16 a Ha).
+  destruct (a =? 255); cbn [app forallb]; rewrite !Hh by assumption; reflexivity.
+Qed.
+
+Theorem text_outline_roundtrip r g b a l : byte r -> byte g -> byte b -> byte a -> valid_len l ->
+  read_style P_TextOutline T_none = Some SNone /\ print_style P_TextOutline SNone = WAttr T_none /\
+  (exists s, print_style P_TextOutline (SOutline None l) = WAttr s /\
+             exists l', read_style P_TextOutline s = Some (SOutline None l') /\ len_equiv l l') /\
+  (exists s, print_style P_TextOutline (SOutline (Some (r, g, b, a)) l) = WAttr s /\
+             exists l', read_style P_TextOutline s = Some (SOutline (Some (r, g, b, a)) l') /\ len_equiv l l').
+Proof.
+  intros Hr Hg Hb Ha Hv. split; [reflexivity|]. split; [reflexivity|].
+  destruct (len_rt l Hv) as [l' [L1 L2]]. destruct (print_len_shape l Hv) as [Pl _].
+  split.
+  - exists (print_len l). split; [reflexivity|]. exists l'. split; [|exact L2].
+    unfold read_style, extract_style. unfold_props.
+    rewrite (printed_not_keyword l T_none 110 [111; 110; 101] Hv) by reflexivity.
+    rewrite (split_plain _ Pl []). cbn [app]. rewrite L1. reflexivity.
+  - exists (print_color (r, g, b, a) ++ sp ++ print_len l). split; [reflexivity|]. exists l'. split; [|exact L2].
+    unfold read_style, extract_style. unfold_props.
+    pose proof (print_color_plain r g b a Hr Hg Hb Ha) as Pc.
+    assert (Hnot : text_eqb (print_color (r, g, b, a) ++ sp ++ print_len l) T_none = false) by reflexivity.
+    rewrite Hnot, (split_two _ _ Pc Pl), L1, (color_roundtrip r g b a Hr Hg Hb Ha). reflexivity.
+Qed.
+
+(* ---- tts:position: "<h-edge> <length> <v-edge> <length>" as the writer prints it ------------------------------------------------ *)
+Definition plain_ws (c : Z) : bool :=
+  negb ((c =? 32) || ((9 <=? c) && (c <=? 13)) || ((28 <=? c) && (c <=? 31)) || (c =? 133) || (c =? 160)).
+
+Lemma split_ws_plain a : forallb plain_ws a = true -> a <> [] -> forall cur, split_ws a cur = [cur ++ a].
+Proof.
+  induction a as [|c a IH]; intros H Hne cur; [contradiction|]. cbn [forallb] in H. apply andb_true_iff in H as [H1 H2].
+  cbn [split_ws]. unfold plain_ws in H1. apply negb_true_iff in H1. rewrite H1.
+  destruct a as [|c2 a2].
+  - cbn [split_ws]. destruct (cur ++ [c]) eqn:E; [destruct cur; discriminate|]. reflexivity.
+  - rewrite (IH H2) by discriminate. rewrite <- app_assoc. reflexivity.
+Qed.
+
+Lemma split_ws_plain_app a b : forallb plain_ws a = true -> a <> [] -> split_ws (a ++ 32 :: b) [] = a :: split_ws b [].
+Proof.
+  intros H Hne.
+  assert (G : forall cur, cur ++ a <> [] -> split_ws (a ++ 32 :: b) cur = (cur ++ a) :: split_ws b []).
+  { clear Hne. induction a as [|c a IH]; intros cur Hc.
+    - cbn [app split_ws]. replace ((32 =? 32) || ((9 <=? 32) && (32 <=? 13)) || ((28 <=? 32) && (32 <=? 31)) || (32 =? 133) || (32 =? 160)) with true by reflexivity.
+      rewrite app_nil_r in *. destruct cur; [contradiction|]. reflexivity.
+    - cbn [forallb] in H. apply andb_true_iff in H as [H1 H2]. cbn [app split_ws].
+      unfold plain_ws in H1. apply negb_true_iff in H1. rewrite H1.
+      rewrite (IH H2 (cur ++ [c])) by (destruct cur; discriminate). rewrite <- app_assoc. reflexivity. }
+  apply (G []). exact Hne.
+Qed.
+
+(* printed lengths contain no white space at all *)
+Definition unit_plain_ws (u : Z) : bool := forallb plain_ws (unit_text u).
+Lemma units_plain_ws : forallb unit_plain_ws [0; 1; 2; 3; 4; 5] = true.
+Proof. vm_compute. reflexivity. Qed.
+
+Lemma dchars_plain_ws l : all_dec l = true -> forallb plain_ws (dchars l) = true.
+Proof.
+  unfold dchars. induction l as [|d l IH]; [reflexivity|]. unfold all_dec in *. cbn [forallb List.map]. intro H.
+  apply andb_true_iff in H as [H1 H2]. rewrite (IH H2), andb_true_r. unfold is_dec in H1. unfold plain_ws. lia.
+Qed.
+
+Lemma print_len_plain_ws l : valid_len l -> forallb plain_ws (print_len l) = true /\ print_len l <> [].
+Proof.
+  intros [Hu Hx]. destruct l as [x u]. cbn [l_val l_unit] in *.
+  unfold print_len, format_g, uses_exponent in *. cbn [l_val l_unit].
+  pose proof (round6_parts_sig x) as Hs.
+  destruct (round6_parts x) as [[neg sig] ex]. unfold format_g_parts. rewrite Hx.
+  set (p := Z.to_nat (- ex)). set (I := sig / pow10z p). set (F := sig mod pow10z p).
+  pose proof (pow10z_pos p) as Hp.
+  assert (HF : 0 <= F < pow10z p) by (apply Z.mod_pos_bound; lia).
+  assert (HI : 0 <= I) by (apply Z.div_pos; lia).
+  destruct (frac_digits_spec p F HF) as [_ [_ Fd]]. pose proof (rstrip0_dec _ Fd) as Hfr.
+  destruct (nat_digits_ok I HI) as [_ [Hdec Hne]].
+  assert (Hup : forallb plain_ws (unit_text u) = true).
+  { pose proof units_plain_ws as A. rewrite forallb_forall in A. apply (A u).
+    assert (u = 0 \/ u = 1 \/ u = 2 \/ u = 3 \/ u = 4 \/ u = 5) by lia. simpl. intuition. }
+  pose proof (dchars_plain_ws _ Hfr) as Hfrp.
+  assert (Hfrac : forallb plain_ws (match rstrip0 (frac_digits p F) with [] => [] | _ :: _ => 46 :: dchars (rstrip0 (frac_digits p F)) end) = true).
+  { destruct (rstrip0 (frac_digits p F)) as [|z zl]; [reflexivity|].
+    change (forallb plain_ws (46 :: dchars (z :: zl))) with (plain_ws 46 && forallb plain_ws (dchars (z :: zl))). rewrite Hfrp. reflexivity. }
+  split.
+  - rewrite !forallb_app. rewrite Hup, Hfrac. change (print_nat I) with (dchars (nat_digits I)). rewrite (dchars_plain_ws _ Hdec).
+    destruct neg; reflexivity.
+  - change (print_nat I) with (chrs (nat_digits I)). destruct (nat_digits I) as [|d ds]; [discriminate|].
+    destruct neg; discriminate.
+Qed.
+
+Definition edge_ok (tbl : list (list Z * Z * list Z)) (names : list text) (o : Z) : bool :=
+  match enum_value tbl o with
+  | Some s => forallb plain_ws s && negb (text_eqb s []) && existsb (text_eqb s) names &&
+              match enum_by_value tbl s with Some o' => o' =? o | None => false end
+  | None => false
+  end.
+Lemma edges_ok : forallb (edge_ok enum_HEdge [T_left; T_right]) [0; 1] && forallb (edge_ok enum_VEdge [T_top; T_bottom]) [0; 1] = true.
+Proof. vm_compute. reflexivity. Qed.
+
+Theorem position_roundtrip he ho ve vo :
+  0 <= he <= 1 -> 0 <= ve <= 1 -> valid_len ho -> valid_len vo -> validate_style P_Position (SPosition he ho ve vo) = true ->
+  exists s, print_style P_Position (SPosition he ho ve vo) = WAttr s /\
+  exists ho' vo', read_style P_Position s = Some (SPosition he ho' ve vo') /\ len_equiv ho ho' /\ len_equiv vo vo'.
+Proof.
+  intros Hhe Hve Hho Hvo Hval.
+  pose proof edges_ok as HE. apply andb_true_iff in HE as [HEh HEv]. rewrite forallb_forall in HEh, HEv.
+  assert (Hh : edge_ok enum_HEdge [T_left; T_right] he = true).
+  { apply HEh. assert (he = 0 \/ he = 1) by lia. simpl. intuition. }
+  assert (Hv : edge_ok enum_VEdge [T_top; T_bottom] ve = true).
+  { apply HEv. assert (ve = 0 \/ ve = 1) by lia. simpl. intuition. }
+  unfold edge_ok in Hh, Hv.
+  destruct (enum_value enum_HEdge he) as [hs|] eqn:Ehs; [|discriminate].
+  destruct (enum_value enum_VEdge ve) as [vs|] eqn:Evs; [|discriminate].
+  repeat (apply andb_true_iff in Hh as [Hh ?]). repeat (apply andb_true_iff in Hv as [Hv ?]).
+  destruct (enum_by_value enum_HEdge hs) as [he'|] eqn:Ebh; [|discriminate].
+  destruct (enum_by_value enum_VEdge vs) as [ve'|] eqn:Ebv; [|discriminate].
+  match goal with A : (he' =? he) = true |- _ => apply Z.eqb_eq in A; subst he' end.
+  match goal with A : (ve' =? ve) = true |- _ => apply Z.eqb_eq in A; subst ve' end.
+  destruct (len_rt ho Hho) as [ho' [Lh1 [Lh2 Lh3]]]. destruct (len_rt vo Hvo) as [vo' [Lv1 [Lv2 Lv3]]].
+  destruct (print_len_plain_ws ho Hho) as [Ph Nh]. destruct (print_len_plain_ws vo Hvo) as [Pv Nv].
+  exists (hs ++ sp ++ print_len ho ++ sp ++ vs ++ sp ++ print_len vo).
+  split; [cbn [print_style]; rewrite Ehs, Evs; reflexivity|].
+  exists ho', vo'. split; [|split; split; assumption].
+  assert (Hhne : hs <> []). { intro E. subst hs. discriminate. }
+  assert (Hvne : vs <> []). { intro E. subst vs. discriminate. }
+  unfold read_style, extract_style. unfold_props. unfold parse_position.
+  unfold sp. cbn [app].
+  rewrite (split_ws_plain_app hs _ Hh Hhne), (split_ws_plain_app (print_len ho) _ Ph Nh), (split_ws_plain_app vs _ Hv Hvne),
+          (split_ws_plain (print_len vo) Pv Nv []).
+  cbn [app length Z.of_nat Pos.of_succ_nat Pos.succ Z.eqb Pos.eqb orb].
+  (* the four items through pos34 *)
+  assert (Hhk : text_eqb hs T_left || text_eqb hs T_right = true).
+  { match goal with A : existsb (text_eqb hs) [T_left; T_right] = true |- _ => cbn [existsb] in A; rewrite orb_false_r in A; exact A end. }
+  assert (Hvk : text_eqb vs T_top || text_eqb vs T_bottom = true).
+  { match goal with A : existsb (text_eqb vs) [T_top; T_bottom] = true |- _ => cbn [existsb] in A; rewrite orb_false_r in A; exact A end. }
+  assert (Hvh : text_eqb vs T_left || text_eqb vs T_right = false).
+  { destruct (text_eqb vs T_top) eqn:E1; [apply text_eqb_eq in E1; subst vs; reflexivity|].
+    destruct (text_eqb vs T_bottom) eqn:E2; [apply text_eqb_eq in E2; subst vs; reflexivity|]. discriminate. }
+  assert (Hlen_kw : forall l, valid_len l -> (text_eqb (print_len l) T_left || text_eqb (print_len l) T_right = false) /\
+                                             (text_eqb (print_len l) T_top || text_eqb (print_len l) T_bottom = false) /\
+                                             text_eqb (print_len l) T_center = false).
+  { intros l Hl. rewrite (printed_not_keyword l T_left 108 [101; 102; 116] Hl), (printed_not_keyword l T_right 114 [105; 103; 104; 116] Hl),
+      (printed_not_keyword l T_top 116 [111; 112] Hl), (printed_not_keyword l T_bottom 98 [111; 116; 116; 111; 109] Hl),
+      (printed_not_keyword l T_center 99 [101; 110; 116; 101; 114] Hl) by reflexivity. auto. }
+  destruct (Hlen_kw ho Hho) as [K1 [K2 K3]]. destruct (Hlen_kw vo Hvo) as [K4 [K5 K6]].
+  cbn [pos34]. rewrite Hhk. cbn [pos34]. rewrite K1, K2, K3, Lh1. cbn [pos34]. rewrite Hvh, Hvk. cbn [pos34]. rewrite K4, K5, K6, Lv1. cbn [pos34].
+  rewrite Ebh, Ebv. cbn [validate_style] in *. rewrite Lh2, Lv2, Hval. reflexivity.
+Qed.
+
+(* ---- tts:textShadow with one shadow (several shadows are the recorded finding textshadow-list) ----------------------------------- *)
+Definition nocomma (c : Z) : bool := negb (c =? 44).
+Lemma split_comma_none a : forallb nocomma a = true -> split_on 44 a [] = [a].
+Proof.
+  assert (G : forall cur, forallb nocomma a = true -> split_on 44 a cur = [cur ++ a]).
+  { induction a as [|c a IH]; intros cur H; cbn [split_on].
+    - rewrite app_nil_r. reflexivity.
+    - cbn [forallb] in H. apply andb_true_iff in H as [H1 H2]. unfold nocomma in H1.
+      replace (c =? 44) with false by lia. rewrite (IH _ H2). rewrite <- app_assoc. reflexivity. }
+  intro H. apply (G [] H).
+Qed.
+Lemma plain_nocomma a : forallb plain a = true -> forallb nocomma a = true.
+Proof.
+  induction a as [|c a IH]; [reflexivity|]. cbn [forallb]. intro H. apply andb_true_iff in H as [H1 H2].
+  rewrite (IH H2), andb_true_r. unfold plain in H1. unfold nocomma. lia.
+Qed.
+
+Lemma parse_len_color r g b a : parse_len (print_color (r, g, b, a)) = None.
+Proof. unfold print_color, parse_len. cbn [split_sign]. reflexivity. Qed.
+
+Lemma plain_join3 a b c : forallb plain a = true -> forallb plain b = true -> forallb plain c = true ->
+  split_on 32 (a ++ sp ++ b ++ sp ++ c) [] = [a; b; c].
+Proof.
+  intros Ha Hb Hc. unfold sp. cbn [app]. rewrite (split_plain_app _ _ Ha []), (split_plain_app _ _ Hb []), (split_plain _ Hc []). reflexivity.
+Qed.
+Lemma plain_join4 a b c d : forallb plain a = true -> forallb plain b = true -> forallb plain c = true -> forallb plain d = true ->
+  split_on 32 (a ++ sp ++ b ++ sp ++ c ++ sp ++ d) [] = [a; b; c; d].
+Proof.
+  intros Ha Hb Hc Hd. unfold sp. cbn [app].
+  rewrite (split_plain_app _ _ Ha []), (split_plain_app _ _ Hb []), (split_plain_app _ _ Hc []), (split_plain _ Hd []). reflexivity.
+Qed.
+
+Definition olen_equiv (a b : option len) : Prop := match a, b with Some x, Some y => len_equiv x y | None, None => True | _, _ => False end.
+Definition ovalid (a : option len) : Prop := match a with Some x => valid_len x | None => True end.
+Definition obyte (c : option color) : Prop := match c with Some (r, g, b, a) => byte r /\ byte g /\ byte b /\ byte a | None => True end.
+
+Theorem text_shadow_single_roundtrip x y blur c : valid_len x -> valid_len y -> ovalid blur -> obyte c ->
+  read_style P_TextShadow T_none = Some SNone /\
+  exists s, print_style P_TextShadow (SShadows [(x, y, blur, c)]) = WAttr s /\
+  exists x' y' blur', read_style P_TextShadow s = Some (SShadows [(x', y', blur', c)]) /\
+    len_equiv x x' /\ len_equiv y y' /\ olen_equiv blur blur'.
+Proof.
+  intros Hx Hy Hb Hc. split; [reflexivity|].
+  destruct (len_rt x Hx) as [x' [X1 X2]]. destruct (len_rt y Hy) as [y' [Y1 Y2]].
+  destruct (print_len_shape x Hx) as [Px [c0 [rest [Ex Hc0]]]]. destruct (print_len_shape y Hy) as [Py _].
+  eexists. split; [reflexivity|]. cbn [List.map join_with print_shadow].
+  assert (Hnone : forall tl, text_eqb (print_len x ++ tl) T_none = false).
+  { intro tl. rewrite Ex. unfold T_none. cbn [app text_eqb]. destruct (c0 =? 110) eqn:E; [|reflexivity].
+    apply Z.eqb_eq in E. subst c0. discriminate. }
+  unfold read_style, extract_style. unfold_props.
+  destruct blur as [bl|], c as [[[[r g] b] a]|]; cbn [ovalid obyte olen_equiv] in *.
+  - destruct Hc as [Hr [Hg [Hbb Ha]]]. destruct (len_rt bl Hb) as [bl' [B1 B2]]. destruct (print_len_shape bl Hb) as [Pb _].
+    pose proof (print_color_plain r g b a Hr Hg Hbb Ha) as Pc.
+    exists x', y', (Some bl'). split; [|repeat split; try apply X2; try apply Y2; try apply B2].
+    rewrite <- !app_assoc. rewrite Hnone.
+    rewrite split_comma_none by (rewrite !forallb_app, (plain_nocomma _ Px), (plain_nocomma _ Py), (plain_nocomma _ Pb), (plain_nocomma _ Pc); reflexivity).
+    cbn [List.map]. unfold parse_shadow. rewrite (plain_join4 _ _ _ _ Px Py Pb Pc). rewrite X1, Y1, B1, (color_roundtrip r g b a Hr Hg Hbb Ha). reflexivity.
+  - destruct (len_rt bl Hb) as [bl' [B1 B2]]. destruct (print_len_shape bl Hb) as [Pb _].
+    exists x', y', (Some bl'). split; [|repeat split; try apply X2; try apply Y2; try apply B2].
+    rewrite <- !app_assoc. rewrite app_nil_r. rewrite Hnone.
+    rewrite split_comma_none by (rewrite !forallb_app, (plain_nocomma _ Px), (plain_nocomma _ Py), (plain_nocomma _ Pb); reflexivity).
+    cbn [List.map]. unfold parse_shadow. rewrite (plain_join3 _ _ _ Px Py Pb). rewrite X1, Y1, B1. reflexivity.
+  - destruct Hc as [Hr [Hg [Hbb Ha]]]. pose proof (print_color_plain r g b a Hr Hg Hbb Ha) as Pc.
+    exists x', y', None. split; [|repeat split; try apply X2; try apply Y2; exact I].
+    cbn [app]. rewrite Hnone.
+    rewrite split_comma_none by (rewrite !forallb_app, (plain_nocomma _ Px), (plain_nocomma _ Py), (plain_nocomma _ Pc); reflexivity).
+    cbn [List.map]. unfold parse_shadow. rewrite (plain_join3 _ _ _ Px Py Pc). rewrite X1, Y1, parse_len_color, (color_roundtrip r g b a Hr Hg Hbb Ha). reflexivity.
+  - exists x', y', None. split; [|repeat split; try apply X2; try apply Y2; exact I].
+    cbn [app]. rewrite app_nil_r. rewrite Hnone.
+    rewrite split_comma_none by (rewrite !forallb_app, (plain_nocomma _ Px), (plain_nocomma _ Py); reflexivity).
+    cbn [List.map]. unfold parse_shadow. rewrite (split_two _ _ Px Py). cbn [omap2]. rewrite X1, Y1. reflexivity.
+Qed.
+
+(* ---- tts:textEmphasis: 7 styles x 3 positions, without colour (finite, decided) and with any RGBA8 colour --------------------- *)
+Definition emph_ok_nocolor (st pos : Z) : bool :=
+  match print_style P_TextEmphasis (SEmph st None pos) with
+  | WAttr s => match read_style P_TextEmphasis s with Some (SEmph st' None pos') => (st' =? st) && (pos' =? pos) | _ => false end
+  | _ => false
+  end.
+Lemma emph_nocolor_all : forallb (fun st => forallb (emph_ok_nocolor st) [0; 1; 2]) [0; 1; 2; 3; 4; 5; 6] = true.
+Proof. vm_compute. reflexivity. Qed.
+
+Theorem text_emphasis_roundtrip st pos c : 0 <= st <= 6 -> 0 <= pos <= 2 -> obyte c ->
+  exists s, print_style P_TextEmphasis (SEmph st c pos) = WAttr s /\ read_style P_TextEmphasis s = Some (SEmph st c pos).
+Proof.
+  intros Hst Hpos Hc.
+  assert (Hs : st = 0 \/ st = 1 \/ st = 2 \/ st = 3 \/ st = 4 \/ st = 5 \/ st = 6) by lia.
+  assert (Hp : pos = 0 \/ pos = 1 \/ pos = 2) by lia.
+  destruct c as [[[[r g] b] a]|].
+  - destruct Hc as [Hr [Hg [Hb Ha]]].
+    pose proof (print_color_plain r g b a Hr Hg Hb Ha) as Pc.
+    pose proof (color_roundtrip r g b a Hr Hg Hb Ha) as Cr.
+    pose (pc := print_color (r, g, b, a)).
+    assert (K1 : text_eqb pc T_none = false) by reflexivity.
+    assert (K2 : text_eqb pc T_auto = false) by reflexivity.
+    assert (K3 : mem_tok pc emph_styles = false) by reflexivity.
+    assert (K4 : mem_tok pc emph_symbols = false) by reflexivity.
+    assert (K5 : enum_by_name enum_TextEmphasisPosition pc = None) by reflexivity.
+    assert (K6 : text_eqb pc [99; 117; 114; 114; 101; 110; 116] = false) by reflexivity.
+    unfold pc in *. clear pc.
+    destruct Hs as [-> | [-> | [-> | [-> | [-> | [-> | ->]]]]]]; destruct Hp as [-> | [-> | ->]];
+      (eexists; split; [reflexivity|];
+       unfold read_style, extract_style; unfold_props;
+       cbn [enum_value enum_TextEmphasisStyle enum_TextEmphasisPosition Z.eqb Pos.eqb print_ocolor join_with app];
+       unfold sp; cbn [app split_on Z.eqb Pos.eqb];
+       rewrite (split_plain_app _ _ Pc _); cbn [app split_on Z.eqb Pos.eqb emph_fold];
+       repeat (rewrite K1 || rewrite K2 || rewrite K3 || rewrite K4 || rewrite K5 || rewrite K6 || rewrite Cr || cbn [mem_tok existsb text_eqb emph_styles emph_symbols orb andb Z.eqb Pos.eqb T_none T_auto enum_by_name enum_TextEmphasisPosition]); reflexivity).
+  - assert (H : emph_ok_nocolor st pos = true).
+    { destruct Hs as [-> | [-> | [-> | [-> | [-> | [-> | ->]]]]]]; destruct Hp as [-> | [-> | ->]]; vm_compute; reflexivity. }
+    unfold emph_ok_nocolor in H.
+    destruct (print_style P_TextEmphasis (SEmph st None pos)) as [s| |]; try discriminate.
+    exists s. split; [reflexivity|].
+    destruct (read_style P_TextEmphasis s) as [v|]; [|discriminate]. destruct v; try discriminate.
+    destruct c; [discriminate|]. apply andb_true_iff in H as [H1 H2]. apply Z.eqb_eq in H1, H2. subst. reflexivity.
+Qed.
